@@ -13,6 +13,7 @@ from vlib.hx import fin, param, untraced
 LANG = param("lang", "C")
 LABEL = param("label", "two")
 OP = param("op", "delete")
+TOLERATE = param("tolerate", [])
 
 import importlib.util  # noqa
 import os  # noqa
@@ -99,7 +100,12 @@ def h_mut(p: int, k: int) -> bool:
 def _concrete(pp, kk):
     """position and class are concrete here (selected by explicit branching): run the real scan_file untraced."""
     toks = mutate(pp, kk)
-    ms = scan_file(toks, LANGUAGE)
+    try:
+        ms = scan_file(toks, LANGUAGE)
+    except ValueError as e:
+        if "Multiple transitions" in str(e) and any(":ValueError:" in t for t in TOLERATE):
+            return [], 0          # the listed known finding (arrow-pattern ambiguity): assumed away so the other positions are still explored
+        raise
     return soup.wellformed(ms, toks), len(ms)
 
 
